@@ -5,11 +5,14 @@ import json, os, sys
 sys.path.insert(0, os.path.join(os.path.dirname(os.path.abspath(__file__)), "..", "lib"))
 import facts
 names = set()
+sigs = {}
 for cfg in ("pinned", "malloc", "mmap", "ucontext", "debug"):
     d, m = facts.generate(cfg, siblings=True)
     for u in m["units"]:
         for fd in json.load(open(os.path.join(d, u["json"])))["functions"]:
             names.add(fd["name"])
+            rel = os.path.relpath(fd["file"], facts.REPO)
+            sigs.setdefault(fd["name"], [rel, fd.get("ret"), [p["t"] for p in fd["params"]], bool(fd.get("static"))])
 out = os.path.join(os.path.dirname(os.path.abspath(__file__)), "..", "lib", "census.json")
-json.dump({"comment": "names of the library functions at the reference tree; see lib/inline.py", "functions": sorted(names)}, open(out, "w"), indent=0)
+json.dump({"comment": "names of the library functions at the reference tree; see lib/inline.py", "functions": sorted(names), "signatures": sigs}, open(out, "w"), indent=0)
 print(len(names), "functions")
